@@ -196,7 +196,7 @@ Proof.
       * intros m' r Hin Hv Hr'. apply in_app_or in Hr'. destruct Hr' as [Hr'|[<-|[]]].
         -- apply (Hlt m' r); [right; exact Hin | exact Hv | exact Hr'].
         -- simpl. pose proof (ascending_head_lt _ _ _ Hasc Hin). lia.
-      * reflexivity.
+      * subst i1. simpl. exact Hr.
       * reflexivity.
       * reflexivity.
       * exists n. rewrite Hn. subst i1. unfold with_exec; simpl.
@@ -238,4 +238,326 @@ Proof.
     unfold advanced. rewrite Hb. unfold db_rows; simpl.
     destruct (pending k ms); simpl; [|reflexivity].
     unfold stmts_all; simpl. rewrite !app_nil_r. reflexivity.
+Qed.
+
+Lemma txn_execs_app : forall a b, txn_execs (a ++ b) = txn_execs a ++ txn_execs b.
+Proof. intros a b. unfold txn_execs. rewrite map_app, concat_app. reflexivity. Qed.
+Lemma txn_execs_block_evs : forall o l, txn_execs (block_evs o l) = List.concat (map (block_sqls o) l).
+Proof.
+  intros o l. unfold block_evs. generalize (List.concat (map (block_sqls o) l)). intros ss.
+  induction ss as [|s ss IH]; [reflexivity|]. unfold txn_execs in *. simpl. rewrite IH. reflexivity.
+Qed.
+Lemma txn_execs_prelude : forall o d, txn_execs (prelude_log o d) = [].
+Proof. reflexivity. Qed.
+
+(* exactly the statements of the migrations with version > k, ascending, each followed by its version row *)
+Corollary run_from_k_statements : forall o ms k d,
+  ascending ms = true -> at_version k d = true ->
+  txn_execs (i_log (snd (run [] o ms d))) = List.concat (map (block_sqls o) (pending k ms)).
+Proof.
+  intros o ms k d Ha Hk. destruct (run_from_k o ms k d Ha Hk) as [_ [_ Hl]]. rewrite Hl.
+  rewrite !txn_execs_app, txn_execs_prelude, txn_execs_block_evs. simpl. rewrite app_nil_r. reflexivity.
+Qed.
+
+(* ---------- idempotence ---------- *)
+Fixpoint top (k : N) (ms : list mig) : N :=
+  match ms with [] => k | m :: r => top (N.max k (m_version m)) r end.
+
+Lemma top_ge : forall ms k, (k <= top k ms)%N.
+Proof. induction ms as [|m ms IH]; intros k; simpl; [lia|]. specialize (IH (N.max k (m_version m))). lia. Qed.
+Lemma top_ge_all : forall ms k m, In m ms -> (m_version m <= top k ms)%N.
+Proof.
+  induction ms as [|a ms IH]; intros k m H; [destruct H|]. simpl. destruct H as [<-|H].
+  - pose proof (top_ge ms (N.max k (m_version a))). lia.
+  - apply IH. exact H.
+Qed.
+Lemma top_cases : forall ms k, top k ms = k \/ exists m, In m ms /\ m_version m = top k ms /\ (k < m_version m)%N.
+Proof.
+  induction ms as [|a ms IH]; intros k; simpl; [left; reflexivity|].
+  destruct (IH (N.max k (m_version a))) as [H|[m [Hin [Hv Hlt]]]].
+  - rewrite H. destruct (N.max_spec k (m_version a)) as [[Hlt ->]|[Hle ->]].
+    + right. exists a. split; [left; reflexivity|]. split; [reflexivity|exact Hlt].
+    + left. reflexivity.
+  - right. exists m. split; [right; exact Hin|]. split; [exact Hv|lia].
+Qed.
+Lemma top_i32 : forall ms k, (k < 2147483648)%N -> versions_i32 ms = true -> (top k ms < 2147483648)%N.
+Proof.
+  induction ms as [|a ms IH]; intros k Hk H; simpl; [exact Hk|].
+  simpl in H. apply andb_true_iff in H. destruct H as [H1 H2]. apply N.ltb_lt in H1.
+  apply IH; [lia|exact H2].
+Qed.
+Lemma pending_top : forall ms k, pending (top k ms) ms = [].
+Proof.
+  intros ms k. unfold pending.
+  assert (H : forall m, In m ms -> N.ltb (top k ms) (m_version m) = false).
+  { intros m Hm. apply N.ltb_ge. apply top_ge_all. exact Hm. }
+  revert H. generalize (top k ms). intros t H. induction ms as [|a ms IH]; [reflexivity|].
+  simpl. rewrite (H a (or_introl eq_refl)). apply IH. intros m Hm. apply H. right. exact Hm.
+Qed.
+
+Lemma has_version_app : forall v a b, has_version v (a ++ b) = (has_version v a || has_version v b)%bool.
+Proof. intros v a b. induction a as [|[w j] a IH]; simpl; [reflexivity|]. rewrite IH, orb_assoc. reflexivity. Qed.
+Lemma has_version_rows_of : forall m l, In m l -> has_version (Z.of_N (m_version m)) (rows_of l) = true.
+Proof.
+  intros m l. induction l as [|a l IH]; intros H; [destruct H|]. simpl. destruct H as [->|H].
+  - rewrite Z.eqb_refl. reflexivity.
+  - rewrite (IH H). apply orb_true_r.
+Qed.
+
+Lemma at_version_advanced : forall o ms k d,
+  at_version k d = true -> versions_i32 ms = true ->
+  at_version (top k ms) (advanced o (pending k ms) d) = true.
+Proof.
+  intros o ms k d Hat Hi. destruct (at_version_parts _ _ Hat) as [H1 [H2 H3]].
+  destruct (bootstrap_shape d) as [rows [Hb Hm]].
+  unfold at_version, advanced. rewrite Hb. unfold db_rows; simpl.
+  apply N.ltb_lt in H1. pose proof (top_i32 ms k H1 Hi) as Ht. pose proof (top_ge ms k) as Hge.
+  apply andb_true_iff. split; [apply andb_true_iff; split|].
+  - apply N.ltb_lt. exact Ht.
+  - unfold rows_within. rewrite forallb_forall. intros r Hr. apply in_app_or in Hr. destruct Hr as [Hr|Hr].
+    + rewrite <- (rows_within_map_fst k _ _ Hm) in H2. pose proof (rows_within_In _ _ _ H2 Hr).
+      apply andb_true_iff. split; apply Z.leb_le; lia.
+    + unfold rows_of in Hr. apply in_map_iff in Hr. destruct Hr as [m [<- Hin]]. simpl.
+      destruct (pending_lt _ _ _ Hin) as [Hin' _]. pose proof (top_ge_all ms k m Hin').
+      apply andb_true_iff. split; apply Z.leb_le; lia.
+  - destruct (top_cases ms k) as [Heq|[m [Hin [Hv Hlt]]]].
+    + rewrite Heq. rewrite has_version_app. rewrite <- (has_version_map_fst _ _ _ Hm) in H3.
+      apply orb_true_iff in H3. destruct H3 as [H3|H3]; [rewrite H3; reflexivity|].
+      rewrite H3. simpl. apply orb_true_r.
+    + rewrite has_version_app. rewrite <- Hv.
+      rewrite (has_version_rows_of m (pending k ms)); [rewrite !orb_true_r; reflexivity|].
+      unfold pending. apply filter_In. split; [exact Hin|]. apply N.ltb_lt. exact Hlt.
+Qed.
+
+Lemma advanced_nil_fix : forall o rows ap, advanced o [] (mkDb (Some (mkVt true rows)) ap) = mkDb (Some (mkVt true rows)) ap.
+Proof. intros. unfold advanced, bootstrap, db_rows, stmts_all; simpl. rewrite !app_nil_r. reflexivity. Qed.
+
+Theorem run_idempotent : forall o ms k d,
+  ascending ms = true -> versions_i32 ms = true -> at_version k d = true ->
+  let d1 := fst (run [] o ms d) in
+  fst (run [] o ms d1) = d1 /\ i_res (snd (run [] o ms d1)) = Some ROk /\ txn_execs (i_log (snd (run [] o ms d1))) = [].
+Proof.
+  intros o ms k d Ha Hi Hk d1.
+  destruct (run_from_k o ms k d Ha Hk) as [Hd _]. fold d1 in Hd.
+  assert (Hat : at_version (top k ms) d1 = true) by (rewrite Hd; apply at_version_advanced; assumption).
+  destruct (run_from_k o ms (top k ms) d1 Ha Hat) as [H1 [H2 H3]].
+  rewrite pending_top in H1, H3. split; [|split].
+  - rewrite H1. rewrite Hd. unfold advanced at 2. apply advanced_nil_fix.
+  - exact H2.
+  - rewrite H3. reflexivity.
+Qed.
+
+(* ---------- the id comparison (lib.rs:153-162) ---------- *)
+Lemma plan_no_fail : forall o ver ids ms,
+  (forall m, In m ms -> N.ltb ver (m_version m) = true -> id_check ids m = None) ->
+  forall x, In x (plan o ver ids ms) -> forall e, x <> IFail e.
+Proof.
+  intros o ver ids ms. induction ms as [|m ms IH]; intros H x Hx e.
+  - simpl in Hx. destruct Hx as [<-|[]]. discriminate.
+  - simpl in Hx. destruct (N.ltb ver (m_version m)) eqn:Ev.
+    + rewrite (H m (or_introl eq_refl) Ev) in Hx. apply in_app_or in Hx. destruct Hx as [Hx|[<-|Hx]].
+      * apply in_map_iff in Hx. destruct Hx as [s [<- _]]. discriminate.
+      * discriminate.
+      * apply IH; [|exact Hx]. intros m' Hm'. apply H. right. exact Hm'.
+    + apply IH; [|exact Hx]. intros m' Hm'. apply H. right. exact Hm'.
+Qed.
+
+Lemma run_list_res_plain : forall F o oth l ci,
+  (forall x, In x l -> forall e, x <> IFail e) -> res_plain (i_res (snd ci)) ->
+  res_plain (i_res (snd (run_list F o oth l ci))).
+Proof.
+  intros F o oth l. induction l as [|x l IH]; intros [c i] Hl Hp; simpl; [exact Hp|].
+  simpl in Hp. destruct (i_res i) eqn:E; [simpl; rewrite E; exact Hp|].
+  apply IH; [intros y Hy; apply Hl; right; exact Hy|].
+  apply exec_res_plain; [apply Hl; left; reflexivity | exact E].
+Qed.
+
+Lemma res_plain_not_mismatch : forall r v e f, res_plain r -> r <> Some (RErr (IdMismatch v e f)).
+Proof. intros r v e f [ -> | [ -> | -> ]]; discriminate. Qed.
+
+(* the prelude under arbitrary fault injection *)
+Lemma prelude_gen : forall F o d,
+  let ci := run_list F o [] prelude (d, inst0) in
+  res_plain (i_res (snd ci)) /\
+  (fst ci = d \/ fst ci = sql_create_vt d \/ fst ci = bootstrap d) /\
+  (i_res (snd ci) = None -> exists rows, map fst rows = map fst (db_rows d) /\
+      i_ver (snd ci) = decode_version (max_version rows) /\ i_ids (snd ci) = decode_ids rows /\
+      i_buf (snd ci) = Some (fst ci) /\ d_vt (fst ci) = Some (mkVt true rows)).
+Proof.
+  intros F o d. unfold res_plain.
+  destruct d as [[[[] rows]|] ap]; unfold bootstrap, db_rows; simpl;
+  repeat match goal with
+         | |- context [existsb ?f F] => destruct (existsb f F); simpl
+         end;
+  (split; [auto|split; [auto|]]); intros Hn; try discriminate;
+  first [ exists rows; repeat split; reflexivity
+        | exists (map (fun r => (fst r, "")) rows); rewrite map_map; repeat split; reflexivity
+        | exists []; repeat split; reflexivity ].
+Qed.
+
+Lemma max_decode_ge : forall rows r,
+  (forall x, In x rows -> (0 <= fst x < 2147483648)%Z) -> In r rows ->
+  (Z.to_N (fst r) <= decode_version (max_version rows))%N.
+Proof.
+  intros rows r Hall Hr. destruct (max_version rows) as [m|] eqn:E.
+  - destruct (max_version_spec _ _ E) as [[id Hid] Hle]. pose proof (Hall _ Hid) as Hm. simpl in Hm.
+    specialize (Hle _ Hr). pose proof (Hall _ Hr).
+    unfold decode_version. rewrite as_i32_small by lia. rewrite i32_as_u32_small by lia. lia.
+  - apply max_version_none in E. subst. destruct Hr.
+Qed.
+
+Theorem id_check_unreachable : forall F o ms d v e f,
+  rows_i32 d = true -> i_res (snd (run F o ms d)) <> Some (RErr (IdMismatch v e f)).
+Proof.
+  intros F o ms d v e f Hrows. apply res_plain_not_mismatch.
+  unfold run, run_from. destruct (prelude_gen F o d) as [Hp [_ Hn]].
+  destruct (i_res (snd (run_list F o [] prelude (d, inst0)))) eqn:E; [exact Hp|].
+  destruct (Hn eq_refl) as [rows [Hm [Hv [Hi _]]]].
+  apply run_list_res_plain; [|rewrite E; left; reflexivity].
+  apply plan_no_fail. intros m _ Hlt. rewrite Hv, Hi in *. unfold id_check.
+  destruct (ids_get (m_version m) (decode_ids rows)) as [x|] eqn:Eg; [|reflexivity].
+  exfalso. destruct (ids_get_decode _ _ _ Eg) as [r [w [Hr [Ha Hu]]]].
+  destruct (as_i32_some _ _ Ha) as [-> _].
+  assert (Hall : forall x, In x rows -> (0 <= fst x < 2147483648)%Z).
+  { intros x Hx. unfold rows_i32 in Hrows. rewrite forallb_forall in Hrows.
+    assert (Hf : In (fst x) (map fst (db_rows d))) by (rewrite <- Hm; apply in_map; exact Hx).
+    apply in_map_iff in Hf. destruct Hf as [y [Hy Hin]]. specialize (Hrows y Hin).
+    apply andb_true_iff in Hrows. destruct Hrows as [A B]. apply Z.leb_le in A. apply Z.ltb_lt in B. rewrite <- Hy. lia. }
+  pose proof (max_decode_ge rows r Hall Hr) as Hge. pose proof (Hall _ Hr).
+  rewrite i32_as_u32_small in Hu by lia. apply N.ltb_lt in Hlt. lia.
+Qed.
+
+(* ---------- C10 ---------- *)
+Lemma plan_instrs : forall o ver ids ms x, In x (plan o ver ids ms) -> x <> ICreate /\ x <> IAlter.
+Proof.
+  intros o ver ids ms. induction ms as [|m ms IH]; intros x Hx.
+  - simpl in Hx. destruct Hx as [<-|[]]. split; discriminate.
+  - simpl in Hx. destruct (N.ltb ver (m_version m)); [|apply IH; exact Hx].
+    destruct (id_check ids m).
+    + destruct Hx as [<-|[]]. split; discriminate.
+    + apply in_app_or in Hx. destruct Hx as [Hx|[<-|Hx]].
+      * apply in_map_iff in Hx. destruct Hx as [s [<- _]]. split; discriminate.
+      * split; discriminate.
+      * apply IH; exact Hx.
+Qed.
+
+Lemma run_list_keeps_db : forall F o oth l c i,
+  (forall x, In x l -> x <> ICreate /\ x <> IAlter) ->
+  fst (run_list F o oth l (c, i)) = c \/ i_res (snd (run_list F o oth l (c, i))) = Some ROk.
+Proof.
+  intros F o oth l. induction l as [|x l IH]; intros c i Hl; simpl; [left; reflexivity|].
+  destruct (i_res i) eqn:E; [left; reflexivity|].
+  destruct (Hl x (or_introl eq_refl)) as [Hc Ha].
+  destruct (exec_db F o oth x c i) as [H|[[H _]|[[H _]|[_ H]]]]; try contradiction.
+  - destruct (exec F o oth x c i) as [c1 i1] eqn:Ex. simpl in H. subst c1.
+    apply IH. intros y Hy. apply Hl. right. exact Hy.
+  - right. erewrite run_list_finished; [exact H|exact H].
+Qed.
+
+Theorem fail_leaves_db : forall F o ms d e,
+  i_res (snd (run F o ms d)) = Some (RErr e) ->
+  fst (run F o ms d) = d \/ fst (run F o ms d) = sql_create_vt d \/ fst (run F o ms d) = bootstrap d.
+Proof.
+  intros F o ms d e. unfold run, run_from. destruct (prelude_gen F o d) as [_ [Hdb _]].
+  destruct (run_list F o [] prelude (d, inst0)) as [c1 i1] eqn:Ep. simpl in *.
+  destruct (i_res i1) eqn:E; [intros _; exact Hdb|].
+  intros Herr.
+  destruct (run_list_keeps_db F o [] (plan o (i_ver i1) (i_ids i1) ms) c1 i1 (plan_instrs _ _ _ _)) as [H|H].
+  - rewrite H. exact Hdb.
+  - rewrite H in Herr. discriminate.
+Qed.
+
+Lemma bookkeeping_create : forall d, same_but_bookkeeping d (sql_create_vt d).
+Proof. intros [[t|] ap]; split; reflexivity. Qed.
+Lemma bookkeeping_bootstrap : forall d, same_but_bookkeeping d (bootstrap d).
+Proof.
+  intros d. destruct (bootstrap_shape d) as [rows [Hb Hm]]. rewrite Hb. split; [reflexivity|].
+  unfold recorded_versions, db_rows at 1; simpl. exact Hm.
+Qed.
+
+Theorem fail_at_j_rolls_back : forall j o ms d e,
+  i_res (snd (run [j] o ms d)) = Some (RErr e) -> same_but_bookkeeping d (fst (run [j] o ms d)).
+Proof.
+  intros j o ms d e H. destruct (fail_leaves_db [j] o ms d e H) as [ -> | [ -> | -> ]].
+  - split; reflexivity.
+  - apply bookkeeping_create.
+  - apply bookkeeping_bootstrap.
+Qed.
+
+Lemma advanced_create : forall o l d, advanced o l (sql_create_vt d) = advanced o l d.
+Proof. intros o l d. unfold advanced. rewrite bootstrap_create. destruct d as [[t|] ap]; reflexivity. Qed.
+Lemma advanced_bootstrap : forall o l d, advanced o l (bootstrap d) = advanced o l d.
+Proof.
+  intros o l d. unfold advanced. rewrite bootstrap_idem.
+  destruct (bootstrap_shape d) as [rows [Hb _]]. rewrite Hb. reflexivity.
+Qed.
+
+Theorem rerun_completes : forall F o ms k d e,
+  ascending ms = true -> at_version k d = true ->
+  i_res (snd (run F o ms d)) = Some (RErr e) ->
+  fst (run [] o ms (fst (run F o ms d))) = fst (run [] o ms d) /\
+  i_res (snd (run [] o ms (fst (run F o ms d)))) = Some ROk.
+Proof.
+  intros F o ms k d e Ha Hk Herr.
+  destruct (run_from_k o ms k d Ha Hk) as [Hd _]. rewrite Hd.
+  destruct (fail_leaves_db F o ms d e Herr) as [ -> | [ -> | -> ]].
+  - destruct (run_from_k o ms k d Ha Hk) as [H1 [H2 _]]. split; assumption.
+  - destruct (run_from_k o ms k _ Ha (at_version_create _ _ Hk)) as [H1 [H2 _]].
+    rewrite H1, advanced_create. split; [reflexivity|exact H2].
+  - destruct (run_from_k o ms k _ Ha (at_version_bootstrap _ _ Hk)) as [H1 [H2 _]].
+    rewrite H1, advanced_bootstrap. split; [reflexivity|exact H2].
+Qed.
+
+Theorem bootstrap_idempotent : forall d,
+  bootstrap (bootstrap d) = bootstrap d /\ sql_create_vt (bootstrap d) = bootstrap d /\ sql_alter_vt (bootstrap d) = EngErr.
+Proof. intros [[[[] rows]|] ap]; repeat split; reflexivity. Qed.
+
+(* the two statements outside the transaction as the generated code runs them, twice in a row *)
+Lemma prelude_nofault : forall o d,
+  run_list [] o [] prelude (d, inst0) =
+  (bootstrap d, mkInst None true (Some (bootstrap d)) Shared (decode_version (max_version (db_rows (bootstrap d))))
+                       (decode_ids (db_rows (bootstrap d))) (prelude_log o d) 5).
+Proof. intros o [[[[] rows]|] ap]; reflexivity. Qed.
+
+(* ---------- process death ---------- *)
+Lemma run_calls_finished : forall F o fuel l ci r, i_res (snd ci) = Some r -> run_calls F o fuel l ci = ci.
+Proof. intros F o fuel l ci r H. destruct l; simpl; [reflexivity|rewrite H; reflexivity]. Qed.
+
+Lemma run_calls_db : forall F o l fuel c i,
+  (forall x, In x l -> x <> ICreate /\ x <> IAlter) ->
+  fst (run_calls F o fuel l (c, i)) = c \/ run_calls F o fuel l (c, i) = run_list F o [] l (c, i).
+Proof.
+  intros F o l. induction l as [|x l IH]; intros fuel c i Hl; simpl; [left; reflexivity|].
+  destruct (i_res i) eqn:E; [left; reflexivity|].
+  destruct (Hl x (or_introl eq_refl)) as [Hc Ha].
+  assert (Hl' : forall y, In y l -> y <> ICreate /\ y <> IAlter) by (intros y Hy; apply Hl; right; exact Hy).
+  assert (Hstep : forall f, fst (run_calls F o f l (exec F o [] x c i)) = c \/
+                            run_calls F o f l (exec F o [] x c i) = run_list F o [] l (exec F o [] x c i)).
+  { intros f. destruct (exec_db F o [] x c i) as [H|[[H _]|[[H _]|[_ H]]]]; try contradiction.
+    - destruct (exec F o [] x c i) as [c1 i1] eqn:Ex. simpl in H. subst c1. apply IH. exact Hl'.
+    - right. rewrite (run_calls_finished _ _ _ _ _ _ H). symmetry. eapply run_list_finished. exact H. }
+  destruct x; try (destruct fuel as [|f]; [left; reflexivity | apply Hstep]).
+  apply Hstep.
+Qed.
+
+Theorem crash_before_commit : forall j o ms d,
+  crash j o ms d = d \/ crash j o ms d = sql_create_vt d \/ crash j o ms d = bootstrap d
+  \/ crash j o ms d = fst (run [] o ms d).
+Proof.
+  intros j o ms d. unfold crash.
+  destruct j as [|[|[|[|[|j]]]]].
+  - left. reflexivity.
+  - destruct d as [[[[] rows]|] ap]; simpl; auto.
+  - destruct d as [[[[] rows]|] ap]; simpl; auto.
+  - destruct d as [[[[] rows]|] ap]; simpl; auto.
+  - destruct d as [[[[] rows]|] ap]; simpl; auto.
+  - assert (Hp : run_calls [] o (S (S (S (S (S j))))) prelude (d, inst0) = run_list [] o [] prelude (d, inst0))
+      by (destruct d as [[[[] rows]|] ap]; reflexivity).
+    rewrite Hp, prelude_nofault. simpl snd. simpl i_n. simpl Nat.ltb. cbv iota. simpl i_res. cbv iota.
+    simpl i_ver. simpl i_ids. simpl fst.
+    unfold run, run_from. rewrite prelude_nofault. simpl.
+    match goal with |- context [run_calls [] o ?f ?l (?c, ?i)] =>
+      destruct (run_calls_db [] o l f c i (plan_instrs _ _ _ _)) as [H|H] end.
+    + right; right; left. exact H.
+    + right; right; right. rewrite H. reflexivity.
 Qed.
